@@ -101,6 +101,7 @@ func scriptDec(s *exec.State, b []byte) {
 	}
 	for _, u := range exec.Units {
 		s.UnitDecode(u, 1)
+		s.UnitDecodeInto(u, unitPrev[u], 1)
 	}
 	// the same bytes into receivers that have decoded something before (C01: no panic)
 	for _, entry := range exec.Entries {
@@ -108,6 +109,17 @@ func scriptDec(s *exec.State, b []byte) {
 			s.UnmarshalReuse(entry, firsts[len(b)%len(firsts)], 1)
 		}
 	}
+}
+
+// unitPrev: for every exported sub-structure a valid encoding that a reused value may have decoded before.
+var unitPrev = map[string][]byte{
+	"hdr":   {0xA5, 203, 0x12, 0x34},
+	"rb":    {1, 2, 3, 4, 200, 0, 1, 2, 9, 8, 7, 6, 0, 0, 1, 0, 5, 5, 5, 5, 6, 6, 6, 6},
+	"chunk": {9, 9, 9, 9, 1, 3, 'a', 'b', 'c', 2, 1, 'x', 0, 0, 0, 0},
+	"item":  {1, 3, 'a', 'b', 'c'},
+	"rl":    {0x3F, 0xFF},
+	"sv":    {0xE6, 0xB1},
+	"delta": {0x81, 0x02},
 }
 
 var reuseSeedCache map[string][][]byte
@@ -507,6 +519,31 @@ func init() {
 				s.UnitEncode("rl", abs.V{"ct": "rl", "typ": 0, "sym": sym, "run": run}, 1)
 			}
 		}
+		// a value that has decoded one unit decodes another (every ordered pair of a few words)
+		svWords := [][]byte{{0x80, 0x00}, {0xBF, 0xFF}, {0xC0, 0x00}, {0xE6, 0xB1}, {0x95, 0x55}}
+		for _, a := range svWords {
+			for _, b := range svWords {
+				s.SetBuf(1, b)
+				s.UnitDecodeInto("sv", a, 1)
+			}
+		}
+		chunks := [][]byte{{1, 1, 1, 1, 0, 0, 0, 0}, unitPrev["chunk"], {2, 2, 2, 2, 1, 1, 'q', 0}, {3, 3, 3, 3, 1, 0, 2, 0, 3, 1, 'z', 0}}
+		for _, a := range chunks {
+			for _, b := range chunks {
+				s.SetBuf(1, b)
+				s.UnitDecodeInto("chunk", a, 1)
+			}
+		}
+		last := map[string][]byte{}
+		again := func(u string) {
+			if s.Buf[1] == nil {
+				return
+			}
+			if p, ok := last[u]; ok {
+				s.UnitDecodeInto(u, p, 1)
+			}
+			last[u] = append([]byte(nil), s.Buf[1]...)
+		}
 		for i := 0; i < n; i++ {
 			if i%50 == 0 {
 				s.Reset()
@@ -515,6 +552,7 @@ func init() {
 			case 0:
 				s.UnitEncode("rb", g.RB(), 1)
 				s.UnitDecode("rb", 1)
+				again("rb")
 			case 1:
 				rb := g.RB()
 				rb["lost"] = abs.L{g.Pick(0, 0, 1, 255), g.U8(), g.U8(), g.U8()}
@@ -522,20 +560,24 @@ func init() {
 			case 2:
 				s.UnitEncode("item", g.Item(), 1)
 				s.UnitDecode("item", 1)
+				again("item")
 			case 3:
 				s.UnitEncode("chunk", g.Chunk(), 1)
 				s.UnitDecode("chunk", 1)
+				again("chunk")
 			case 4:
 				t := g.Pick(1, 2)
 				tk := g.Pick(-40000, -32769, -32768, -1, 0, 1, 255, 256, 32767, 32768, 40000, g.Int(-33000, 33000))
 				s.UnitEncode("delta", abs.V{"t": t, "ticks": tk, "rem": 0, "big": g.Pick(0, 0, 0, 1, -1, 65536)}, 1)
 				if s.Buf[1] != nil {
 					s.UnitDecode("delta", 1)
+					again("delta")
 				}
 			case 5:
 				s.UnitEncode("hdr", abs.V{"p": g.Bool(), "c": g.Pick(0, 1, 30, 31, 32, 33, 255, g.R.Intn(32)), "t": g.U8(), "len": g.U16()}, 1)
 				if s.Buf[1] != nil {
 					s.UnitDecode("hdr", 1)
+					again("hdr")
 				}
 			}
 		}
@@ -638,15 +680,29 @@ func scriptProg(s *exec.State, v abs.V, ops []any) {
 			}
 			s.Rebuild(1, arg)
 		case "marshal1":
-			s.Marshal(1)
+			if has(s, 1) {
+				s.Marshal(1)
+			}
 		case "size1":
-			s.Size(1)
+			if has(s, 1) {
+				s.Size(1)
+			}
 		case "dest1":
-			s.Dest(1)
+			if has(s, 1) {
+				s.Dest(1)
+			}
 		case "string1":
-			s.String(1)
+			if has(s, 1) {
+				s.String(1)
+			}
 		case "unmarshal12":
 			s.Unmarshal(kind, 1, 2)
+		case "unmarshal22":
+			if has(s, 2) {
+				s.UnmarshalInto(kind, 1, 2)
+			}
+		case "unmarshal11":
+			s.UnmarshalInto(kind, 1, 1)
 		case "datagram13":
 			s.Datagram(1, 3)
 		case "marshal2":
@@ -656,6 +712,10 @@ func scriptProg(s *exec.State, v abs.V, ops []any) {
 		case "dest2":
 			if has(s, 2) {
 				s.Dest(2)
+			}
+		case "size2":
+			if has(s, 2) {
+				s.Size(2)
 			}
 		case "marshal3":
 			if has(s, 3) {
@@ -669,7 +729,7 @@ func init() {
 	extraScripts["prog"] = func(s *exec.State, rec abs.V) { scriptProg(s, rec["v"].(abs.V), abs.List(rec["ops"])) }
 	// random longer histories with repeated calls (C18)
 	drivers["histrand"] = func(s *exec.State, g *gen.G, n int) {
-		names := []string{"marshal1", "size1", "dest1", "string1", "unmarshal12", "datagram13", "marshal2", "dest2", "marshal3", "rebuild1"}
+		names := []string{"marshal1", "size1", "dest1", "string1", "unmarshal12", "datagram13", "marshal2", "dest2", "marshal3", "rebuild1", "unmarshal22", "unmarshal11"}
 		for i := 0; i < n; i++ {
 			k := g.Int(4, 12)
 			ops := make([]any, k)
